@@ -84,3 +84,11 @@ func vPickKey(second bool, a, b vKey) vKey {
 	}
 	return a
 }
+
+func vSignBytes(k vKey, msg []byte) []byte {
+	sig, err := k.priv.Sign(msg)
+	if err != nil {
+		panic(err)
+	}
+	return sig
+}
